@@ -1,4 +1,7 @@
 use core::any::TypeId;
+#[cfg(unimock_verif)]
+use crate::verif::AtomicUsize;
+#[cfg(not(unimock_verif))]
 use core::sync::atomic::AtomicUsize;
 
 use crate::alloc::{vec, BTreeMap, Vec};
@@ -36,6 +39,11 @@ impl SharedState {
     pub fn bump_ordered_call_index(&self) -> usize {
         self.next_ordered_call_index
             .fetch_add(1, core::sync::atomic::Ordering::SeqCst)
+    }
+
+    #[cfg(unimock_verif)]
+    pub(crate) fn verif_ordered_index(&self) -> &AtomicUsize {
+        &self.next_ordered_call_index
     }
 
     pub fn clone_panic_reasons(&self) -> Vec<error::MockError> {
